@@ -4,8 +4,9 @@
 (*   - Decode(raw): XML 1.0 character data with references -> bytes.  Only the five predefined entities and numeric   *)
 (*     character references to legal XML Chars have a value; a reference to any other named entity is "undef" - it    *)
 (*     must never be replaced (the decoder either fails or leaves the reference as it stands); everything that is not *)
-(*     well-formed character data (a bare '&', a reference to U+0000, a surrogate, > U+10FFFF, an empty or over-long   *)
-(*     digit string) is "either": the property makes no demand on it.                                                 *)
+(*     well-formed character data (a bare '&', a reference to U+0000, a surrogate, > U+10FFFF, an empty digit string,   *)
+(*     more than 7 SIGNIFICANT digits) is "either": the property makes no demand on it.  Leading zeros are legal in   *)
+(*     any number and do not change the value (&#x0001F4A9; &#00008364;); hex digits may be of either case.           *)
 (*   - Balanced(toks): the tag-balance clause defined by REDUCTION (delete adjacent Start(n) End(n) pairs), i.e.      *)
 (*     independently of the stack machines in XmlBalance.tla / XmlBalanceTrace.tla that are checked against it.       *)
 EXTENDS Integers, Sequences, FiniteSets, TLC
@@ -35,6 +36,9 @@ HexVal(b) == IF b \in 48..57 THEN b - 48 ELSE IF b \in 65..70 THEN b - 55 ELSE I
 RECURSIVE NumVal(_, _)
 NumVal(s, base) == IF s = <<>> THEN 0 ELSE NumVal(SubSeq(s, 1, Len(s) - 1), base) * base + HexVal(s[Len(s)])
 
+RECURSIVE StripZeros(_)
+StripZeros(s) == IF s # <<>> /\ Head(s) = 48 THEN StripZeros(Tail(s)) ELSE s
+
 \* the entity body between '&' and ';'  ->  [cls, out]
 EntityValue(ent) ==
   CASE ent = <<108, 116>> -> [cls |-> "yes", out |-> <<60>>]                     \* lt
@@ -45,9 +49,10 @@ EntityValue(ent) ==
     [] ent # <<>> /\ ent[1] = 35 ->                                              \* #...
          LET hex == Len(ent) >= 2 /\ ent[2] = 120                                \* 'x' (XML allows the lower-case x only)
              digs == IF hex THEN SubSeq(ent, 3, Len(ent)) ELSE SubSeq(ent, 2, Len(ent))
-             okdig == digs # <<>> /\ Len(digs) <= 7
+             sig == StripZeros(digs)                                             \* leading zeros carry no value: any number is legal
+             okdig == digs # <<>> /\ Len(sig) <= 7                               \* (CharRef ::= '&#' [0-9]+ ';' | '&#x' [0-9a-fA-F]+ ';')
                       /\ \A i \in 1..Len(digs) : IF hex THEN HexVal(digs[i]) >= 0 ELSE digs[i] \in 48..57
-             v == NumVal(digs, IF hex THEN 16 ELSE 10)
+             v == NumVal(sig, IF hex THEN 16 ELSE 10)
          IN IF okdig /\ LegalChar(v) THEN [cls |-> "yes", out |-> Utf8(v)] ELSE [cls |-> "either", out |-> <<>>]
     [] OTHER -> [cls |-> "undef", out |-> <<38>> \o ent \o <<59>>]               \* &name; stays as it is
 
